@@ -47,6 +47,11 @@ Program (JSON-serialisable: to_json()/from_json(); plain data, no Hypothesis nee
             named data_logger.yaml / quick_logger.yaml like a file the core definitions import ("twins/core-shadow"); twin_files
             lists those files; inject_conflict(..., files=(A, B)) puts the two items into given files
     .classes  set of construct-class strings used (see CLASS NAMES below)   .wellformed  bool
+    generated_name_collisions(program) -> [(bare name, kind, generated-for name, its kind)]: constants / string constants / aliases /
+            host ids / structs called MT_<X>, MDF_<X>, HASH_<X> (X a message, signal or reserved id), MID_<X> (module) or HID_<X> (host);
+            the compiler refuses such closures (DuplicateNameError); programs() never produces them (problems() lists them), the
+            prefix-name generator keeps the remainder <X> away from the generating kinds; inject_conflict kinds
+            "generated-name/<MT|MDF|HASH|MID|HID>-<constant|string|alias|host|struct>" and "generated-name/user-core" create them
     .conflict / .expect / .edited / .relocated   (None unless produced by the respective function)
     .expected_error  None, or the exception class name an intentionally ill-formed program must be rejected with
     .specs  list of FileSpec (the structured model the text is rendered from)
@@ -889,6 +894,8 @@ class _Analysis:
             if d.kind not in ("host", "module", "reserved"):
                 names.setdefault(d.name, d)
             done.append(d)
+        for bare, kind, x, xkind in generated_name_collisions(p):
+            prob(f"generated-name collision: {kind} {bare} is the name generated for {xkind} {x}")
         # sizes / alignment (only meaningful when everything above resolved)
         if not self.problems:
             for d in self.defs:
@@ -949,6 +956,46 @@ class _Analysis:
             es = NATIVES[r.name] if r.kind == "native" else self.packed(r.name)
             tot += es * (f.length if f.length else 1)
         return tot
+
+
+# names the back ends GENERATE for a definition: a constant / string constant / alias / host id / struct (all emitted under their
+# own name) that bears one of them collides in the outputs (two '#define MT_X' in the C header, the id constant replaced in Python)
+GENERATED_PREFIXES = {"MT_": ("message", "signal", "reserved"), "MDF_": ("message", "signal", "reserved"), "HASH_": ("message", "signal", "reserved"),
+                      "MID_": ("module",), "HID_": ("host",)}
+BARE_NAME_KINDS = ("constant", "string", "alias", "host", "struct")
+
+
+def generated_name_collisions(program: Program) -> List[Tuple[str, str, str, str]]:
+    """[(bare name, its kind, generated-for name, kind of that definition)]: definitions emitted under their own name (constants,
+    string constants, aliases, host ids, structs) whose name equals MT_<X> / MDF_<X> / HASH_<X> for a message, signal or reserved
+    id X, MID_<X> for a module X or HID_<X> for a host X of the closure (core definitions included when they are imported).
+    The compiler must refuse such a closure with DuplicateNameError."""
+    gen: Dict[str, Tuple[str, str]] = {}
+    core = core_defs() if program.import_coredefs else None
+    if core:
+        for n in core["message_defs"]:
+            for pre in ("MT_", "MDF_", "HASH_"):
+                gen[pre + n] = (n, "core message")
+        for n in core["module_ids"]:
+            gen["MID_" + n] = (n, "core module")
+        for n in core["host_ids"]:
+            gen["HID_" + n] = (n, "core host")
+    for d in program.defs:
+        names = [f"_RESERVED_{i:06d}" for i in d.reserved_ids()] if d.kind == "reserved" else [d.name]
+        for pre, kinds in GENERATED_PREFIXES.items():
+            if d.kind in kinds:
+                for n in names:
+                    gen.setdefault(pre + n, (n, d.kind))
+    out = []
+    for d in program.defs:
+        if d.kind in BARE_NAME_KINDS and d.name in gen:
+            out.append((d.name, d.kind, gen[d.name][0], gen[d.name][1]))
+    if core:
+        for sec, kind in (("constants", "core constant"), ("aliases", "core alias"), ("host_ids", "core host"), ("struct_defs", "core struct")):
+            for n in core[sec]:
+                if n in gen and gen[n][1] in ("message", "signal", "module", "host", "reserved"):
+                    out.append((n, kind, gen[n][0], gen[n][1]))
+    return out
 
 
 def natural_layout(program: Program, name: str) -> Layout:
@@ -1162,7 +1209,7 @@ class _Builder:
         # the repository's fixes for F15/F16; the two names stay valid in ``allow`` for callers that list them
         self.allow = set(allow) | {"alias-of-imported-struct", "alias-of-imported-struct-field"}
         self.chain: Dict[str, int] = {}  # alias name -> length of its alias chain (1 = alias of a native/struct)
-        self.pending_names: List[str] = []
+        self.pending_names: List[Tuple[str, tuple]] = []  # (name, kinds that must not get it)
         self.rich = rich
         self.names: Set[str] = set(core_defs()["names"]) | set(core_defs()["host_ids"]) | set(core_defs()["module_ids"])
         self.msg_ids: Set[int] = set()
@@ -1176,10 +1223,14 @@ class _Builder:
         self._hasmsg: Dict[str, bool] = {}
 
     # ---- names and ids -------------------------------------------------------------------------
-    def fresh_name(self) -> str:
+    def fresh_name(self, kind: Optional[str] = None) -> str:
+        """kind: kind of the definition that gets the name (None = a kind emitted under its own name, the careful case)."""
         ch = self.ch.cos
-        if self.pending_names:
-            return self.pending_names.pop(0)
+        bare = kind is None or kind in BARE_NAME_KINDS
+        for i, (nm, forbid) in enumerate(self.pending_names):
+            if (kind or "constant") not in forbid:
+                del self.pending_names[i]
+                return nm
         if "prefix-names" in self.allow and ch.chance(0.04):
             for cand in ch.shuffled(_PREFIX_TRAPS):
                 if cand not in self.names:
@@ -1193,10 +1244,14 @@ class _Builder:
             cand = f"{pre}_{rest}"
             if cand not in self.names and rest not in self.names:
                 self.names.add(cand)
+                self.names.add(rest)  # reserved either way: nobody else may become <rest> by accident
                 self.classes |= {"prefix-names", "table-prefix-name", f"table-prefix/{pre}"}
+                # a definition emitted under its own name (constant, string, alias, host, struct) called MT_X / MDF_X / HASH_X /
+                # MID_X / HID_X is a collision when X is a message / module / host: keep X away from those kinds
+                forbid = GENERATED_PREFIXES.get(pre + "_", ()) if bare else ()
+                forbid = tuple(k for k in forbid if k != "reserved")
                 if ch.chance(0.5):
-                    self.names.add(rest)
-                    self.pending_names.append(rest)
+                    self.pending_names.append((rest, forbid))
                     self.classes.add("table-prefix-name-with-remainder")
                 return cand
         if "long-names" in self.allow and ch.chance(0.2):
@@ -1280,7 +1335,7 @@ class _Builder:
                 for d in self.gen_family(path):
                     add(d)
                 continue
-            name = self.fresh_name()
+            name = self.fresh_name("constant")
             flags = []
             if kind == "int":
                 v = ch.choice(LENGTHS + [4, 16, 64, 100])
@@ -1351,7 +1406,7 @@ class _Builder:
                     prev = nxt
         # host / module ids -----------------------------------------------------------------------------
         for _ in range(quota["host"]):
-            add(Def("host", self.fresh_name(), path, value=self.fresh_id(self.host_ids, 1, 32766), flags=["host-id"]))
+            add(Def("host", self.fresh_name("host"), path, value=self.fresh_id(self.host_ids, 1, 32766), flags=["host-id"]))
         for _ in range(quota["module"]):
             if ch.chance(0.15):
                 v = self.fresh_id(self.mod_ids, 201, 400)
@@ -1359,7 +1414,7 @@ class _Builder:
             else:
                 v = self.fresh_id(self.mod_ids, 10, 99)
                 fl = ["module-id"]
-            add(Def("module", self.fresh_name(), path, value=v, flags=fl))
+            add(Def("module", self.fresh_name("module"), path, value=v, flags=fl))
         # structs ---------------------------------------------------------------------------------------
         for _ in range(quota["struct"]):
             d = self.gen_record("struct", path, vis_files, local)
@@ -1371,7 +1426,7 @@ class _Builder:
         kinds = ch.shuffled(kinds) if ch.chance(0.7) else kinds
         for k in kinds:
             if k == "signal":
-                add(Def("signal", self.fresh_name(), path, id=self.fresh_id(self.msg_ids, 1000, 9999), flags=["signal"],
+                add(Def("signal", self.fresh_name("signal"), path, id=self.fresh_id(self.msg_ids, 1000, 9999), flags=["signal"],
                         style={"id_last": ch.cos.chance(0.1)}))
             elif k == "reserved":
                 add(self.gen_reserved(path))
@@ -1475,7 +1530,7 @@ class _Builder:
     # ---- structs and messages ---------------------------------------------------------------------
     def gen_record(self, kind: str, path: str, vis_files: Set[str], local: List[Def]) -> Optional[Def]:
         ch = self.ch
-        name = self.fresh_name()
+        name = self.fresh_name(kind)
         natural = self.opts["validate_alignment"]
         aligned = self.opts["validate_alignment"] and not self.opts["auto_pad"]
         st_vis = self.visible_defs(vis_files, ["struct"])
@@ -2353,6 +2408,8 @@ CONFLICT_KINDS = (
     + ["msgid/user-core", "modid/dup", "modid/user-core", "hostid/dup", "hostid/user-core"]
     + [f"name/{a}-{b}" for a in SHARED_KINDS for b in SHARED_KINDS]
     + [f"name/user-core/{a}" for a in SHARED_KINDS]
+    + [f"generated-name/{pre}-{k}" for pre in ("MT", "MDF", "HASH", "MID", "HID") for k in ("constant", "string", "alias", "host", "struct")]
+    + ["generated-name/user-core"]
     + ["range/msgid-low", "range/msgid-high", "range/reserved-low", "range/reserved-high", "range/modid-low",
        "range/modid-mid", "range/hostid-low", "range/hostid-high"]
 )
@@ -2362,7 +2419,7 @@ RANGE_VALUES = {
     "range/reserved-high": [10001, "9999 - 10001", "10001 to 10002"], "range/modid-low": [9, 1, -1], "range/modid-mid": [100, 150, 199],
     "range/hostid-low": [0, -1], "range/hostid-high": [32768, 70000],
 }
-NEEDS_CORE = {"msgid/user-core", "modid/user-core", "hostid/user-core", "range/modid-low", "range/modid-mid",
+NEEDS_CORE = {"generated-name/user-core", "msgid/user-core", "modid/user-core", "hostid/user-core", "range/modid-low", "range/modid-mid",
               "range/hostid-low", "range/hostid-high"} | {f"name/user-core/{a}" for a in SHARED_KINDS}
 
 
@@ -2583,6 +2640,33 @@ def inject_conflict(program: Program, kind: str, placement: str, ch: Chooser, sw
         names = [nm]
         fb = fa
         expected = ["DuplicateNameError"]
+    elif fam == "generated-name":
+        # a definition emitted under its own name is called like the name the outputs generate for another definition
+        if rest == "user-core":
+            core = core_defs()
+            pre, pool = ch.choice([("MT", sorted(core["message_defs"])), ("MDF", sorted(core["message_defs"])), ("HASH", sorted(core["message_defs"])),
+                                   ("MID", sorted(core["module_ids"])), ("HID", sorted(core["host_ids"]))])
+            x = ch.choice(pool)
+            k2 = variant.get("bare") or ch.choice(list(BARE_NAME_KINDS))
+            fb = fa
+            sb = sa
+        else:
+            pre, k2 = rest.split("-")
+            x = ctx.fresh_name()
+            if pre in ("MT", "MDF", "HASH"):
+                fl = variant.get("flavour1") or ch.choice(["message", "signal"])
+                d1 = Def("signal", x, fa, id=ctx.fresh_msg_id()) if fl == "signal" else Def("message", x, fa, id=ctx.fresh_msg_id(), fields=[FieldSpec("v", "int32", "int32")])
+            elif pre == "MID":
+                d1 = Def("module", x, fa, value=ctx.fresh_mod_id())
+            else:
+                d1 = Def("host", x, fa, value=ctx.fresh_host_id())
+            _insert(sa, d1, ch, w1)
+        nm = f"{pre}_{x}"
+        d2 = Def("host", nm, fb, value=ctx.fresh_host_id()) if k2 == "host" else _mk_named(k2, nm, fb, ctx, ch)
+        _insert(sb, d2, ch, w2)
+        names = [x, nm]
+        info["generated_for"] = x
+        expected = ["DuplicateNameError"]
     elif fam == "range":
         val = variant.get("value")
         if val is None:
@@ -2651,6 +2735,10 @@ def all_conflict_cases() -> List[dict]:
                     add("msgid/reserved-reserved", pl, swap, spelling1=v1, spelling2=v2, pos1=ps, pos2="end" if ps == "start" else "start")
             add("modid/dup", pl, swap)
             add("hostid/dup", pl, swap)
+        for pre in ("MT", "MDF", "HASH", "MID", "HID"):
+            for k in ("constant", "string", "alias", "host", "struct"):
+                add(f"generated-name/{pre}-{k}", pl, False, flavour1="message")
+                add(f"generated-name/{pre}-{k}", pl, True, flavour1="signal")
         for sp in LOOSE_RESERVED_SPELLINGS:
             add("msgid/msg-reserved", pl, False, spelling2=sp)
             add("msgid/reserved-signal", pl, True, spelling1=sp)
@@ -2673,6 +2761,9 @@ def all_conflict_cases() -> List[dict]:
                         add(kind, pl, swap, value=v, flavour1="signal")
                     else:
                         add(kind, pl, swap, value=v)
+    for k in BARE_NAME_KINDS:
+        add("generated-name/user-core", "same", False, bare=k)
+        add("generated-name/user-core", "cousins", True, bare=k)
     for a in SHARED_KINDS:
         for ns in ("constants", "aliases", "struct_defs", "message_defs"):
             add(f"name/user-core/{a}", "same", False, core_ns=ns)
